@@ -4,7 +4,7 @@
 (* ndjson file named by the environment variable TRACE), the cursor, law   *)
 (* reporting that does not stop the run, per-law counters, acceptance.     *)
 (***************************************************************************)
-EXTENDS Naturals, Sequences, FiniteSets, TLC, Json, IOUtils, Float64
+EXTENDS Naturals, Sequences, FiniteSets, TLC, Json, IOUtils, Float64, SequencesExt
 
 ASSUME FLoaded   \* the Float64 Java override must be active
 
@@ -38,7 +38,7 @@ BumpAll(c, names) == [k \in DOMAIN c \cup names |->
 NoCount == [k \in {} |-> 0]
 
 \* sets / functions out of JSON arrays
-ToSet(s) == {s[i] : i \in 1..Len(s)}
+\* ToSet(s) (the set of elements of a sequence) comes from SequencesExt
 PairsToFcn(ps) == [k \in {ps[i][1] : i \in 1..Len(ps)} |->
                      ps[CHOOSE i \in 1..Len(ps) : ps[i][1] = k][2]]
 Has(r, f) == f \in DOMAIN r
